@@ -796,17 +796,25 @@ class LaplaceTransformInversionMethods(object):
         else:
             rule = rule(ctx)
 
-        # determine the vector of Laplace-space parameter
-        # needed for the requested method and desired time
-        rule.calc_laplace_parameter(t,**kwargs)
+        # the rule objects raise the working precision (through dps) in
+        # calc_laplace_parameter and set dps back in
+        # calc_time_domain_solution; restore the caller's precision
+        # exactly (prec, not dps), also if f raises
+        prec = ctx.prec
+        try:
+            # determine the vector of Laplace-space parameter
+            # needed for the requested method and desired time
+            rule.calc_laplace_parameter(t,**kwargs)
 
-        # compute the Laplace-space function evalutations
-        # at the required abscissa.
-        fp = [f(p) for p in rule.p]
+            # compute the Laplace-space function evalutations
+            # at the required abscissa.
+            fp = [f(p) for p in rule.p]
 
-        # compute the time-domain solution from the
-        # Laplace-space function evaluations
-        return rule.calc_time_domain_solution(fp,t)
+            # compute the time-domain solution from the
+            # Laplace-space function evaluations
+            return rule.calc_time_domain_solution(fp,t)
+        finally:
+            ctx.prec = prec
 
     # shortcuts for the above function for specific methods
     def invlaptalbot(ctx, *args, **kwargs):
